@@ -270,6 +270,9 @@ impl Prop for C01 {
             }
         };
         o.class(&format!("stratum:{}", ag.stratum.split(['+', '-']).next().unwrap_or("")));
+        if ag.stratum.contains("+large") {
+            o.class("size:large");
+        }
         if ag.rules.iter().any(|r| r.prods.iter().any(|p| p.syms.is_empty())) {
             o.class("has-empty-production");
         }
